@@ -1031,6 +1031,20 @@ class PlusMinusPlugin(Plugin):
     def filters(self, parser):
         return [(self.do_plusminus, 510)]
 
+    def _do_subgroup(self, parser, group):
+        # + and - work the same way inside a parenthesised group. A group
+        # without markers of its own is kept as it is (only searched for
+        # nested groups), so its type and settings are not disturbed.
+        if any(isinstance(node, (self.Plus, self.Minus)) for node in group):
+            boost = group.boost
+            group = self.do_plusminus(parser, group)
+            group.set_boost(boost)
+        else:
+            for i, node in enumerate(group):
+                if isinstance(node, syntax.GroupNode):
+                    group[i] = self._do_subgroup(parser, node)
+        return group
+
     def do_plusminus(self, parser, group):
         """This filter sorts nodes in a flat group into "required", "optional",
         and "banned" subgroups based on the presence of plus and minus nodes.
@@ -1054,6 +1068,8 @@ class PlusMinusPlugin(Plugin):
                 # -: put the next node in the banned group
                 next = banned
             else:
+                if isinstance(node, syntax.GroupNode):
+                    node = self._do_subgroup(parser, node)
                 # Anything else: put it in the appropriate group
                 next.append(node)
                 # Reset to putting things in the optional group by default
